@@ -26,7 +26,7 @@ DEFAULT_MAX = 1048576
 # ============================================================================================ store and engines
 def make_seed_db(work):
     """A store with one object of every stored type, an active AES key (1), a pre-active AES key (2) and an RSA pair."""
-    path = os.path.join(str(work), 'seed.db')
+    path = os.path.join(str(work), 'seed-%d.db' % os.getpid())      # pid: two runs of the same check must not share a store
     eng = kdrv.Engine(path=path)
     M = E.CryptographicUsageMask
     eng.request([kdrv.create(mask=(M.ENCRYPT, M.DECRYPT, M.MAC_GENERATE, M.DERIVE_KEY), names=('k1',))])     # 1
@@ -55,7 +55,7 @@ class Pool:
 
     def fresh(self):
         self.n += 1
-        p = os.path.join(str(self.ctx.work), 'e%05d.db' % self.n)
+        p = os.path.join(str(self.ctx.work), 'e%05d-%d.db' % (self.n, os.getpid()))
         shutil.copyfile(self.seed, p)
         px = sessdrv.EngineProxy(kdrv.Engine(path=p))
         self.live.append(px)
